@@ -21,6 +21,16 @@ def load_mutants():
         for m in json.load(open(p)):
             m['source'] = os.path.basename(p)
             ms.append(m)
+    for p in sorted(glob.glob(os.path.join(VERIF, 'seeded', '*', 'meta.json'))):
+        meta = json.load(open(p))
+        if not meta.get('expect') or not meta.get('detected_by'):
+            continue
+        ms.append({'id': 'seeded-' + meta['id'], 'property': meta['detected_by'], 'expect': meta['expect'],
+                   'patch': os.path.relpath(os.path.join(os.path.dirname(p), 'patch.diff'), VERIF), 'source': 'seeded'})
+    for p in sorted(glob.glob(os.path.join(HERE, 'benign', '*.patch'))):
+        name = os.path.basename(p)[:-6]
+        ms.append({'id': 'benign-' + name, 'property': [name.split('-')[0].upper()], 'expect': None,
+                   'patch': os.path.relpath(p, VERIF), 'source': 'benign', 'tier': 'thorough'})
     return ms
 
 
@@ -74,8 +84,14 @@ def run_one(m, tier='quick'):
             if r.returncode == 2:
                 return (m, 'infra', (r.stdout + r.stderr)[-1500:])
             keys = re.findall(r'VIOLATION-KEY (.*)', r.stdout)
+            if m['expect'] is None:
+                if r.returncode != 0:
+                    return (m, 'MISSED', 'benign edit raised an alarm:\n' + (r.stdout + r.stderr)[-1500:])
+                continue
             if r.returncode == 1 and any(re.search(m['expect'], k) for k in keys):
                 caught = True
+        if m['expect'] is None:
+            return (m, 'silent', '')
         if caught:
             return (m, 'caught', '')
         return (m, 'MISSED', '\n'.join(outs)[-1500:])
@@ -117,7 +133,7 @@ def main():
             res.append(r)
     missed = [r for r in res if r[1] in ('MISSED', 'infra')]
     print('mutants: %d caught, %d missed, %d skipped' % (
-        sum(1 for r in res if r[1] == 'caught'), len(missed), sum(1 for r in res if r[1] == 'skipped')))
+        sum(1 for r in res if r[1] in ('caught', 'silent')), len(missed), sum(1 for r in res if r[1] == 'skipped')))
     return 1 if missed else 0
 
 
